@@ -67,7 +67,18 @@ fn dec_session<T: Pixel>(sh: &mut Shards, sid: u64, c: &Cfg, st: u8, w: usize, h
     let maxc = (1u64 << c.n) - 1;
     let px: Vec<[u16; 3]> = (0..w * h).map(|_| [rng.below(maxc + 1) as u16, rng.below(maxc + 1) as u16, rng.below(maxc + 1) as u16]).collect();
     let pads = [(rng.below(18) as usize, rng.below(4) as usize), (rng.below(18) as usize, rng.below(4) as usize), (rng.below(18) as usize, rng.below(4) as usize)];
-    let y = Yuv::<T>::new(frame_from_pixels::<T>(&px, w, h, c.ssx, c.ssy, pads), c.yuv_config()).expect("well-formed frame");
+    let y = match crate::util::guard(|| Yuv::<T>::new(frame_from_pixels::<T>(&px, w, h, c.ssx, c.ssy, pads), c.yuv_config())) {
+        Ok(Ok(y)) => y,
+        Ok(Err(e)) => {
+            // a well-formed frame was rejected: the session ends without accesses and with a non-ok result (TLC rejects it)
+            emit_session(sh, sid, "dec", c, st, w, h, [0; 3], [(0, 0); 3], &format!("ctor:{}", crate::frames::err_name_yuv(e)), &[]);
+            return;
+        }
+        Err(_) => {
+            emit_session(sh, sid, "dec", c, st, w, h, [0; 3], [(0, 0); 3], "ctor:panic", &[]);
+            return;
+        }
+    };
     let d = y.data();
     let strides = [d[0].cfg.stride, d[1].cfg.stride, d[2].cfg.stride];
     let pdims = [(d[0].cfg.width, d[0].cfg.height), (d[1].cfg.width, d[1].cfg.height), (d[2].cfg.width, d[2].cfg.height)];
